@@ -1,14 +1,18 @@
 CONSTANTS
   MaxClients = 2
   MaxOpts = 1
+  MaxPool = 0
   Dev_SharedDefaultAck = TRUE
+  Dev_OptionCapturesToken = FALSE
   Concrete = FALSE
+  Family = "free"
   Emit = FALSE
   Samples = 0
   FromFile = FALSE
 INIT Init
 NEXT Next
 INVARIANT InvTypes
+INVARIANT InvOwnToken
 INVARIANT InvHelloOwn
 PROPERTY InvIsolation
 CHECK_DEADLOCK FALSE
